@@ -1031,7 +1031,9 @@ PROPS["C14"] = {
 
 # ---- C15 ---------------------------------------------------------------------------------------------------
 ANNOT_TEXTS = ["@jsx h", " @jsx  h ", "* @jsx h", "*  @jsx custom.h", "@jsx h extra words", "@jsxImportSource vue", "@jsxRuntime classic", "@jsxFrag F",
-               "@jsx", "@jsx ", "just a comment", "x @jsx h", "@JSX h", "* @jsxImportSource @vue/x", "@jsx\th", "@jsx h*/ /* @jsx k"]
+               "@jsx", "@jsx ", "just a comment", "x @jsx h", "@JSX h", "* @jsxImportSource @vue/x", "@jsx\th", "@jsx h*/ /* @jsx k",
+               # every JavaScript identifier is a factory name: `$`, `_`, digits after the first character, non-ASCII letters
+               "@jsx $h", "@jsx cr\u00e9er", "@jsx _$a.b$", "@jsx h2", "@jsx $"]
 
 
 def comment(style, text):
@@ -1052,7 +1054,7 @@ def c15_cases(tier, seed):
     r = gen.Rng(seed)
     run = corpus_cases("C15") + fixture_cases()
     body = ["const a = <div>{x}</div>;", "function f() { INNER return <><Comp/><p>t</p></>; }", "const b = <Comp v-show={y}>{val}</Comp>;", "export default () => <></>;"]
-    for text, style, place, opt in itertools.product(ANNOT_TEXTS, ["block", "line", "jsdoc", "jsdoc-ml", "jsdoc-ml2", "block-ml"], ["head", "second", "inner", "tail", "two"], [None, "g"]):
+    for text, style, place, opt in itertools.product(ANNOT_TEXTS, ["block", "line", "jsdoc", "jsdoc-ml", "jsdoc-ml2", "block-ml"], ["head", "second", "inner", "tail", "two"], [None, "g", "$g", "\u00e9l\u00e9ment", "create$.el_1"]):
         c = comment(style, text)
         stmts = list(body)
         if place == "head":
